@@ -55,3 +55,56 @@ def gen_full_case(rng, opts, nevents=4):
 
 def run_full(ctx, stmts, events, snapshot=False, hits_max=8):
     return cc.run_real(ctx, stmts, events, extra={"snapshot": snapshot, "hits_max": hits_max})
+
+
+CLOSURE_FNS = ("closure", "map_keys", "map_values", "filter", "for_each")
+CONSTRUCTS = ("return", "abort", "assign2", "massign", "op??", "op||", "op&&", "if", "var_path_assign", "del_var_path",
+              "del", "exists", "closure") + CLOSURE_FNS
+
+
+# type assertions / coercions: they pass their argument through, never the root cause of a type hole
+COERCIONS = ("int", "float", "bool", "string", "array", "object", "timestamp", "to_string", "to_int", "to_float", "to_bool")
+
+
+def side_effect_contexts(stmts):
+    """Set of enclosing-construct labels under which an assignment / del occurs."""
+    out = set()
+
+    def f(n, ctx):
+        if n[0] in ("assign", "massign", "assign2") or (n[0] == "call" and n[1] == "del"):
+            for c in ctx:
+                if c in ("object", "array"):
+                    out.add("literal")
+                elif c.startswith("arg:") and c not in ("arg:del", "arg:probe"):
+                    out.add("argument")
+                elif c.startswith("closure:"):
+                    out.add("closure")
+    A.walk_program(stmts, f)
+    return out
+
+
+def cause(small):
+    """Root-cause family of a minimal failing program (coarse on purpose: one family = one known
+    upstream design issue; see DESIGN.md section 10.2)."""
+    kinds = interesting_kinds(small)
+    nk = A.node_kinds(small)
+    if any(k in kinds for k in CLOSURE_FNS):
+        return "closure"
+    ctxs = side_effect_contexts(small)
+    if "argument" in ctxs:
+        return "argument_side_effect"
+    if "literal" in ctxs:
+        return "literal_evaluation_order"
+    if "del_var_path" in kinds or "var_path_assign" in kinds:
+        return "path_on_local_variable"
+    if "op|" in nk or "massign" in kinds:
+        return "object_merge"
+    fns = [k for k in kinds if k not in CONSTRUCTS and not k.startswith("op") and k not in COERCIONS]
+    if fns:
+        return "fn:" + fns[0]
+    if "assign2" in kinds or "op??" in kinds:
+        return "error_path"
+    for c in ("return", "op||", "op&&", "if"):
+        if c in kinds:
+            return c
+    return "plain"
